@@ -82,7 +82,7 @@ pub fn plan_router(w: &World, knobs: &Knobs, actor: &mut Actor, l: &Ledger) -> V
             sqrt_price_limit_one: limit_one,
             sqrt_price_limit_two: limit_two,
         };
-        let v2 = rng.chance(1, 2);
+        let v2 = rng.chance(1, 2) || knobs.v2_only;
         let build = |a: &TwoHopArgs| if v2 { ix::two_hop_swap_v2(&t, a) } else { ix::two_hop_swap(&t, a) };
         // quote on the current view
         let mut fork = l.clone();
@@ -369,4 +369,23 @@ pub fn pick_adaptive_constants(rng: &mut crate::rng::Rng, spacing: u16, salt: u1
             major_swap_threshold_ticks: threshold.max(1),
         },
     )
+}
+
+
+/// mint authority of the Token-2022 mints: changes the transfer fee (effective two epochs later)
+pub fn plan_mint_auth(w: &World, _k: &Knobs, actor: &mut Actor, l: &Ledger) -> Vec<(Tx, String)> {
+    let rng = &mut actor.rng.clone();
+    let mut flow = Vec::new();
+    let cands: Vec<&crate::gen::MintInfo> = w.mints.iter().filter(|m| m.program == ix::tok22() && crate::world::transfer_fee_params(l, &m.key, 0).is_some()).collect();
+    if !cands.is_empty() {
+        let m = cands[rng.idx(cands.len())];
+        let bps = *rng.pick(&[0u16, 1, 30, 100, 500, 5000, 9999, 10000]);
+        let max = *rng.pick(&[0u64, 10, 1_000_000, 1_000_000_000_000, u64::MAX]);
+        flow.push((
+            Tx { ixs: vec![ix::from_sol(spl_token_2022::extension::transfer_fee::instruction::set_transfer_fee(&ix::tok22(), &m.key, &actor.wallet, &[], bps, max).unwrap())] },
+            "set_transfer_fee".to_string(),
+        ));
+    }
+    actor.rng = rng.clone();
+    flow
 }
